@@ -453,6 +453,7 @@ func (w *pfWorld) step(st *pfStep) M {
 	}
 	now := time.Now().Truncate(time.Second)
 	host := st.Host
+	jk := jarKey(st.Host) // a browser keeps cookies per host *name*: ports do not separate them
 	// clock advance: shift the browser's cookies
 	if st.Gap > 0 {
 		for h, v := range w.jar {
@@ -482,7 +483,7 @@ func (w *pfWorld) step(st *pfStep) M {
 		m, _ := w.openSess(v, now)
 		presented["sess"] = m
 	case "jar":
-		if v, ok := w.jar[host]; ok {
+		if v, ok := w.jar[jk]; ok {
 			cookies = append(cookies, w.cookieName+"="+v)
 			m, _ := w.openSess(v, now)
 			presented["sess"] = m
@@ -490,7 +491,7 @@ func (w *pfWorld) step(st *pfStep) M {
 			presented["kind"] = "none"
 		}
 	case "jar-old":
-		if l := w.jarOld[host]; len(l) > 0 {
+		if l := w.jarOld[jk]; len(l) > 0 {
 			v := l[len(l)/2]
 			cookies = append(cookies, w.cookieName+"="+v)
 			m, _ := w.openSess(v, now)
@@ -556,8 +557,8 @@ func (w *pfWorld) step(st *pfStep) M {
 			info["kind"] = "absent"
 			return "", false, info
 		}
-		stVal, stOK, stInfo := pick(st.StateKind, w.flows[host], true)
-		csVal, csOK, csInfo := pick(st.CsrfKind, w.csrfs[host], false)
+		stVal, stOK, stInfo := pick(st.StateKind, w.flows[jk], true)
+		csVal, csOK, csInfo := pick(st.CsrfKind, w.csrfs[jk], false)
 		if st.StateKind == "same" && csOK {
 			stVal, stOK, stInfo = csVal, true, M{"kind": "same"}
 		}
@@ -678,26 +679,26 @@ func (w *pfWorld) step(st *pfStep) M {
 		case w.cookieName:
 			if c.Value == "" {
 				writes = append(writes, M{"clear": true})
-				if old, ok := w.jar[host]; ok {
-					w.jarOld[host] = append(w.jarOld[host], old)
+				if old, ok := w.jar[jk]; ok {
+					w.jarOld[jk] = append(w.jarOld[jk], old)
 				}
-				delete(w.jar, host)
+				delete(w.jar, jk)
 			} else {
 				m, _ := w.openSess(c.Value, now)
 				writes = append(writes, M{"save": m})
-				if old, ok := w.jar[host]; ok {
-					w.jarOld[host] = append(w.jarOld[host], old)
+				if old, ok := w.jar[jk]; ok {
+					w.jarOld[jk] = append(w.jarOld[jk], old)
 				}
-				w.jar[host] = c.Value
+				w.jar[jk] = c.Value
 			}
 		case w.cookieName + "_csrf":
 			if c.Value == "" {
 				out["csrfCleared"] = true
-				delete(w.csrf, host)
+				delete(w.csrf, jk)
 			} else {
 				out["csrfSet"] = true
-				w.csrf[host] = c.Value
-				w.csrfs[host] = append(w.csrfs[host], c.Value)
+				w.csrf[jk] = c.Value
+				w.csrfs[jk] = append(w.csrfs[jk], c.Value)
 			}
 		}
 	}
@@ -720,14 +721,14 @@ func (w *pfWorld) step(st *pfStep) M {
 				l["redirect_uri"] = q.Get("redirect_uri")
 				l["client_id"] = q.Get("client_id")
 				if stv := q.Get("state"); stv != "" {
-					w.flows[host] = append(w.flows[host], stv)
+					w.flows[jk] = append(w.flows[jk], stv)
 					sp := &proxy.StateParameter{}
 					if err := w.cipher.Unmarshal(stv, sp); err == nil {
 						l["stateURI"] = sp.RedirectURI
 						l["stateSID"] = sp.SessionID
 					}
-					l["stateEqualsCsrf"] = stv == w.csrf[host]
-					if cs := w.csrf[host]; cs != "" {
+					l["stateEqualsCsrf"] = stv == w.csrf[jk]
+					if cs := w.csrf[jk]; cs != "" {
 						sp2 := &proxy.StateParameter{}
 						if err := w.cipher.Unmarshal(cs, sp2); err == nil {
 							l["csrfURI"] = sp2.RedirectURI
@@ -905,6 +906,13 @@ func (w *pfWorld) route(host string) int {
 		}
 	}
 	return -1
+}
+
+func jarKey(host string) string {
+	if h, _, err := net.SplitHostPort(host); err == nil {
+		return h
+	}
+	return host
 }
 
 func parseSetCookie(line string) *http.Cookie {
